@@ -51,6 +51,36 @@ FLOWS = {
     "f_keyed_max": F(["kv"], "keyed", props=("C28", "C29")),
 }
 
+TICK_FLOWS = {
+    "t_fold": F(["n"], "agg", props=("C30",)),
+    "t_reduce": F(["n"], "agg", props=("C30",)),
+    "t_count": F(["n"], "agg", props=("C30", "C32")),
+    "t_max": F(["n"], "agg", props=("C30", "C32")),
+    "t_min": F(["n"], "agg", props=("C30", "C32")),
+    "t_first": F(["n"], "agg", props=("C30", "C32")),
+    "t_last": F(["n"], "agg", props=("C30", "C32")),
+    "t_limit": F(["n"], "ord", props=("C30",)),
+    "t_sort": F(["kv"], "ord", props=("C30",)),
+    "t_enumerate": F(["n"], "ord", props=("C30",)),
+    "t_unique": F(["n"], "ord", props=("C30",)),
+    "t_chain": F(["n", "n"], "ord", props=("C30",)),
+    "t_join": F(["kv", "kv"], "ord", heavy=True, props=("C30",)),
+    "t_cross": F(["n", "n"], "ord", heavy=True, props=("C30",)),
+    "t_anti_join": F(["kv", "n"], "ord", props=("C30",)),
+    "t_cross_singleton": F(["n", "n"], "ord", props=("C30",)),
+    "t_fold_keyed": F(["kv"], "keyed", props=("C30",)),
+    "t_reduce_keyed": F(["kv"], "keyed", props=("C30",)),
+    "t_defer": F(["n"], "ord", props=("C30",)),
+    "t_defer_chain": F(["n", "n"], "ord", props=("C30",)),
+    "t_defer_count": F(["n"], "agg", props=("C30",)),
+    "t_sort_enumerate_fold": F(["n"], "agg", props=("C30",)),
+    "t_cycle": F(["n"], "ord", props=("C30",)),
+}
+FLOWS.update(TICK_FLOWS)
+
+# structural tokens of the surface syntax that are not operators of the emission table
+STRUCTURAL = {"handoff", "identity", "tee"}
+
 INPUT_NAMES = "abcd"
 
 # ---------------------------------------------------------------------------- Gallina printing
@@ -122,6 +152,8 @@ def op_tokens(syntax):
             g = (m.group(2) or "").replace(" ", "")
             # only persistence lifetimes matter; type arguments (identity::<T>) are dropped
             g = ",".join(x for x in g.split(",") if x.startswith("'"))
+            if m.group(1) in STRUCTURAL:
+                continue
             toks.append(m.group(1) + ("<%s>" % g if g else ""))
     return sorted(toks)
 
@@ -313,20 +345,21 @@ def nontrivial_partition(case, res):
 # ---------------------------------------------------------------------------- source scans
 
 MODELLED_NODES = {
-    # top level (C28/C29)
-    "Source": "SSrc / SIter", "Cast": "SWeaken / into_keyed (no operator)",
-    "ObserveNonDet": "identity in production (observation casts)",
-    "Batch": "identity in production", "YieldConcat": "identity in production",
-    "Chain": "SUnion (merge_unordered) / BChain", "Join": "SJoin / SCross / BJoin",
-    "AntiJoin": "SAntiJoin / BAntiJoin", "Map": "SMap / AMap", "FlatMap": "SFlatMap",
-    "Filter": "SFilter", "FilterMap": "SFilterMap", "Inspect": "SInspect",
+    # top level (C28/C29/C33)
+    "Source": "SSrc / SIter / BBatch", "Cast": "SWeaken / BWeaken / into_keyed (no operator)",
+    "ObserveNonDet": "identity in production (observation casts, trusted assumptions)",
+    "AssertIsConsistent": "identity in production (after fold / reduce)",
+    "Batch": "identity in production", "YieldConcat": "identity in production (all_ticks)",
+    "Chain": "SUnion (merge_unordered) / BChain", "Join": "SJoin / SCross (cross_product = maps + join)",
+    "JoinHalf": "BJoin / BCross (bounded right side)",
+    "AntiJoin": "SAntiJoin / BAntiJoin", "Map": "SMap / AMap / BMap", "FlatMap": "SFlatMap / BFlatMap",
+    "Filter": "SFilter / BFilter", "FilterMap": "SFilterMap", "Inspect": "SInspect",
     "Enumerate": "SEnumerate / BEnumerate", "Unique": "SUnique / BUnique",
     "Fold": "AFold / BFold", "FoldKeyed": "AFoldKeyed / BFoldKeyed",
     "Reduce": "AReduce / BReduce", "ReduceKeyed": "AReduceKeyed / BReduceKeyed",
     # tick level (C30)
     "DeferTick": "BDefer", "Sort": "BSort", "CrossSingleton": "BCrossSingleton",
-    "CycleSource": "BLoop (tick cycle)", "Difference": "BDifference",
-    "Scan": "BScan (generator/first/limit)",
+    "CycleSource": "loop_run (tick cycle)", "Scan": "BGen (generator: first / limit)",
 }
 
 
